@@ -23,6 +23,8 @@ pub enum Item {
 	NonNumeric,
 	/// an id just below the batch's first id (only meaningful on a used client)
 	Lower,
+	/// a success answer for entry j whose result is a number: it cannot be decoded when the caller asked for strings
+	Number(usize),
 }
 
 fn alphabet(n: usize) -> Vec<Item> {
@@ -53,6 +55,7 @@ fn reply_text(items: &[Item], n: usize, start: u64, kind: IdKind) -> String {
 			Item::Err(j) => format!(r#"{{"jsonrpc":"2.0","id":{},"error":{{"code":{},"message":"e{j}"}}}}"#, idtxt(kind, start + *j as u64), 500 + j),
 			Item::Foreign => format!(r#"{{"jsonrpc":"2.0","id":{},"result":"foreign"}}"#, idtxt(kind, start + n as u64 + 5)),
 			Item::NonNumeric => r#"{"jsonrpc":"2.0","id":"x","result":"nn"}"#.to_string(),
+			Item::Number(j) => format!(r#"{{"jsonrpc":"2.0","id":{},"result":{}}}"#, idtxt(kind, start + *j as u64), 70 + j),
 			Item::Lower => format!(r#"{{"jsonrpc":"2.0","id":{},"result":"lower"}}"#, idtxt(kind, start.saturating_sub(1))),
 		})
 		.collect();
@@ -61,21 +64,27 @@ fn reply_text(items: &[Item], n: usize, start: u64, kind: IdKind) -> String {
 
 /// Judge the outcome string of a batch call (`Ok("[...]#s..f..o..")` or `Err(..)`) against the reply sequence.
 fn judge_batch(items: &[Item], n: usize, outcome: &Result<String, String>) -> Result<&'static str, (String, String)> {
-	let exact = items.len() == n && (0..n).all(|j| items.iter().filter(|it| matches!(it, Item::Ok(x) | Item::Err(x) if *x == j)).count() == 1);
-	let feature = if exact {
+	let answers = |j: usize| items.iter().filter(|it| matches!(it, Item::Ok(x) | Item::Err(x) | Item::Number(x) if *x == j)).count();
+	let exact = items.len() == n && (0..n).all(|j| answers(j) == 1);
+	// only the typed leg sends number results: there the caller asked for strings
+	let undecodable = items.iter().any(|it| matches!(it, Item::Number(_)));
+	let feature = if exact && undecodable {
+		"undecodable-result"
+	} else if exact {
 		"permutation"
 	} else if items.iter().any(|i| *i == Item::Foreign || *i == Item::Lower) {
 		"foreign-id"
 	} else if items.iter().any(|i| *i == Item::NonNumeric) {
 		"non-numeric-id"
-	} else if (0..n).any(|j| items.iter().filter(|it| matches!(it, Item::Ok(x) | Item::Err(x) if *x == j)).count() > 1) {
+	} else if (0..n).any(|j| answers(j) > 1) {
 		"repeated-id"
 	} else {
 		"missing-answer"
 	};
 	match outcome {
 		Err(e) => {
-			if exact {
+			// an answer that cannot be decoded into the requested type may fail the whole call
+			if exact && !undecodable {
 				return Err((format!("complete-reply-rejected:{feature}"), format!("the reply answers every entry exactly once but the call failed: {e}")));
 			}
 			Ok("err")
@@ -102,12 +111,17 @@ fn judge_batch(items: &[Item], n: usize, outcome: &Result<String, String>) -> Re
 				if cands.contains(e) {
 					continue;
 				}
+				// an undecodable answer for this entry may be reported as an error of the library's choosing, as long as
+				// it is not another entry's error object
+				if items.iter().any(|it| *it == Item::Number(i)) && e.starts_with('E') && !(0..n).any(|j| j != i && *e == format!("E{}", 500 + j)) {
+					continue;
+				}
 				if placeholder && (cands.is_empty() || !exact) {
 					continue;
 				}
 				return Err((format!("entry-filled-with-foreign-answer:{feature}"), format!("entry {i} of the result is {e}, but the delivered answers for that entry are {cands:?} (result {list})")));
 			}
-			if exact && entries.iter().any(|e| e == "E0") {
+			if exact && !undecodable && entries.iter().any(|e| e == "E0") {
 				return Err((format!("entry-lost:{feature}"), format!("every entry was answered but the result has a placeholder: {list}")));
 			}
 			// counts
@@ -129,6 +143,8 @@ struct WsBatch {
 	reply: String,
 	/// this many calls are made (and answered) first, so that the batch does not start at id 0
 	used_client: usize,
+	/// the caller asks for `String` results instead of `Value`
+	typed: bool,
 }
 
 fn mask_none(l: &str) -> bool {
@@ -138,7 +154,7 @@ fn mask_none(l: &str) -> bool {
 impl Scenario for WsBatch {
 	type State = CliState;
 	fn name(&self) -> String {
-		format!("cli_mem/batch-reply:{}:{:?}:{}:{}", self.n, self.kind, self.used_client, self.reply)
+		format!("cli_mem/batch-reply:{}:{:?}:{}:{}{}", self.n, self.kind, self.used_client, self.reply, if self.typed { ":typed" } else { "" })
 	}
 	fn config(&self) -> Value {
 		json!({"n": self.n, "id_kind": format!("{:?}", self.kind), "reply": self.reply})
@@ -147,7 +163,7 @@ impl Scenario for WsBatch {
 		mask_none
 	}
 	fn setup(&self) -> CliState {
-		let ops = vec![FeOp::Batch(self.n)];
+		let ops = vec![if self.typed { FeOp::BatchStr(self.n) } else { FeOp::Batch(self.n) }];
 		let env = vec![EnvEvent::Raw { after: self.used_client + 1, text: self.reply.clone() }];
 		clim::setup(&CliScenarioCfg { rx_split: false, ping_ms: None, send_ping_ms: None, fail_ping: false, warmup: self.used_client, id_kind: self.kind, ops, env, fail_send_at: None, tx_points: false, buffer_cap: 4, late_after: 0 })
 	}
@@ -223,7 +239,7 @@ impl HttpHarness {
 		HttpHarness { rt, svc, kind }
 	}
 	/// a fresh client per case so that the batch starts at id 0
-	fn batch(&self, n: usize, reply: &str, used_client: usize) -> (Result<String, String>, Vec<String>) {
+	fn batch(&self, n: usize, reply: &str, used_client: usize, typed: bool) -> (Result<String, String>, Vec<String>) {
 		*self.svc.reply.lock().unwrap() = reply.to_string();
 		self.svc.seen.lock().unwrap().clear();
 		let _e = self.rt.enter();
@@ -240,7 +256,11 @@ impl HttpHarness {
 			for j in 0..n {
 				b.insert("bm0", rpc_params![j as u64]).unwrap();
 			}
-			client.batch_request::<Value>(b).await.map(clim::batch_summary).map_err(|e| clim::err_str(&e))
+			if typed {
+				client.batch_request::<String>(b).await.map(clim::batch_summary).map_err(|e| clim::err_str(&e))
+			} else {
+				client.batch_request::<Value>(b).await.map(clim::batch_summary).map_err(|e| clim::err_str(&e))
+			}
 		});
 		(res, self.svc.seen.lock().unwrap().clone())
 	}
@@ -304,7 +324,7 @@ pub fn check(rep: &Reporter) {
 	let thorough = rep.tier.thorough();
 	let nmax = if thorough { 5 } else { 4 };
 	rep.set_rule(&format!(
-		"batch size n = 1..{nmax}; server reply = every sequence of length 0..n+1 over {{ok answer for entry j, error answer for entry j (j<n), answer with an id outside the batch, answer with a non-numeric id}} (all permutations, subsets, duplications); × id kind {{number, string}} × {{fresh client (first id 0), used client (first id 1{}; plus an answer whose id lies just below the batch)}} × client {{async client over CLI-MEM, HTTP client over a scripted tower layer}}; plus SCHED: 2 batches and a call in flight with reversed reply arrays under every delivery order. Oracle: positional reference (entry i may only hold an answer delivered for id start+i, or the error placeholder; exact permutations must succeed exactly; success/failure counts and into_ok() agree with the entries).",
+		"batch size n = 1..{nmax}; server reply = every sequence of length 0..n+1 over {{ok answer for entry j, error answer for entry j (j<n), answer with an id outside the batch, answer with a non-numeric id}} (all permutations, subsets, duplications); × id kind {{number, string}} × {{fresh client (first id 0), used client (first id 1{}; plus an answer whose id lies just below the batch)}} × client {{async client over CLI-MEM, HTTP client over a scripted tower layer}}; plus a typed leg (results requested as String, n ≤ 3, thorough 4): every such sequence over {{ok, error, number-valued success (undecodable for the caller), foreign id}} that contains a number-valued success; plus SCHED: 2 batches and a call in flight with reversed reply arrays under every delivery order. Oracle: positional reference (entry i may only hold an answer delivered for id start+i, or the error placeholder; exact permutations must succeed exactly; success/failure counts and into_ok() agree with the entries).",
 		if thorough { ", first id 9 so that string ids cross \"9\"/\"10\"" } else { " and, for n ≤ 2, first id 9" }
 	));
 	rep.assume("each case uses a fresh client so the batch ids start at 0, 1 or 9");
@@ -332,7 +352,7 @@ pub fn check(rep: &Reporter) {
 					let items: Vec<Item> = seq_decode(i, alpha.len(), n + 1).into_iter().map(|k| alpha[k]).collect();
 					let reply = reply_text(&items, n, start, kind);
 					// async client
-					let ex = sched::run_one(&WsBatch { n, kind, reply: reply.clone(), used_client: used }, &[], false);
+					let ex = sched::run_one(&WsBatch { n, kind, reply: reply.clone(), used_client: used, typed: false }, &[], false);
 					let ws_out: Result<String, String> = if let Some(s) = ex.obs.outcome.strip_prefix("OK ") {
 						Ok(s.to_string())
 					} else if let Some(e) = ex.obs.outcome.strip_prefix("ERR ") {
@@ -344,7 +364,7 @@ pub fn check(rep: &Reporter) {
 					for (sig, what) in &ex.obs.violations {
 						rep.violation(&format!("async:{sig}"), what, json!({"client":"async","reply": reply}));
 					}
-					let http_out = http.batch(n, &reply, used).0;
+					let http_out = http.batch(n, &reply, used, false).0;
 					for (cname, out) in [("async", &ws_out), ("http", &http_out)] {
 						match judge_batch(&items, n, out) {
 							Ok(class) => local.case_unique(&format!("{cname}:{class}")),
@@ -359,6 +379,48 @@ pub fn check(rep: &Reporter) {
 					}
 				});
 			}
+		}
+	}
+	// typed leg: the caller asks for String results and some answers are numbers (valid JSON-RPC, wrong type for the caller):
+	// the call may fail as a whole or report that entry as an error, but never returns a shorter or shifted list
+	for n in 1..=(if thorough { 4 } else { 3 }) {
+		let mut alpha = Vec::new();
+		for j in 0..n {
+			alpha.extend([Item::Ok(j), Item::Err(j), Item::Number(j)]);
+		}
+		alpha.push(Item::Foreign);
+		let total = seq_count(alpha.len(), n + 1);
+		for kind in [IdKind::Number, IdKind::String] {
+			par_for(rep, total, 64, || HttpHarness::new(kind), |i, http, local: &mut Local| {
+				let items: Vec<Item> = seq_decode(i, alpha.len(), n + 1).into_iter().map(|k| alpha[k]).collect();
+				// the untyped sweep above covers the sequences without a number result
+				if !items.iter().any(|it| matches!(it, Item::Number(_))) {
+					return;
+				}
+				let reply = reply_text(&items, n, 0, kind);
+				let ex = sched::run_one(&WsBatch { n, kind, reply: reply.clone(), used_client: 0, typed: true }, &[], false);
+				let ws_out: Result<String, String> = if let Some(s) = ex.obs.outcome.strip_prefix("OK ") {
+					Ok(s.to_string())
+				} else if let Some(e) = ex.obs.outcome.strip_prefix("ERR ") {
+					Err(e.to_string())
+				} else {
+					rep.violation("async:pending-after-reply", &format!("typed batch of {n}: after the reply {reply} the batch future is {}", ex.obs.outcome), json!({"engine":"ENUM","client":"async","n": n, "reply": reply}));
+					Err("pending".into())
+				};
+				for (sig, what) in &ex.obs.violations {
+					rep.violation(&format!("async:{sig}"), what, json!({"client":"async","reply": reply}));
+				}
+				let http_out = http.batch(n, &reply, 0, true).0;
+				for (cname, out) in [("async", &ws_out), ("http", &http_out)] {
+					match judge_batch(&items, n, out) {
+						Ok(class) => local.case_unique(&format!("{cname}:typed:{class}")),
+						Err((sig, what)) => {
+							local.case_unique(&format!("{cname}:violation"));
+							rep.violation(&format!("{cname}:typed:{sig}"), &format!("{cname} client, batch of {n} read as String ({kind:?} ids), reply {reply}: {what}"), json!({"engine":"ENUM","client": cname, "n": n, "id_kind": format!("{kind:?}"), "requested_type": "String", "reply": reply, "outcome": format!("{out:?}")}));
+						}
+					}
+				}
+			});
 		}
 	}
 	// SCHED leg
